@@ -27,7 +27,11 @@ Inductive levent :=
 | LPut (t : tid) (d : desc)   (* Push: manifest PUT answered 201 *)
 | LIdx (e : event)            (* an event of the index update protocol *)
 | LDel (t : tid)              (* Delete: manifest DELETE answered 202 *)
-| LEnd (t : tid).             (* the operation is over: a push; a delete whose index update or manifest DELETE failed *)
+| LEnd (t : tid)              (* the operation is over: a push; a delete whose index update or manifest DELETE failed *)
+| LPutLost (d : desc).        (* Push: the manifest PUT took effect but was answered with an error (lost response):
+                                 the push returns the error without touching the index - the manifest is live and
+                                 unlisted, nothing is claimed about it any more (taint).  A lost response of a
+                                 delete's manifest DELETE is LDel: the registry did what a 202 says *)
 
 Definition ent_tid (e : tid * N * bool) : tid := fst (fst e).
 Definition ent_key (e : tid * N * bool) : N := snd (fst e).
@@ -98,6 +102,9 @@ Definition lstep (sg : bool) (m : lstate) (e : levent) : option lstate :=
           else None
       | _ => None
       end
+  | LPutLost d =>
+      if is_empty d || has_ent_key (dkey d) (l_inflight m) then None
+      else Some (mkL (l_s m) (dkey d :: l_live m) (l_inflight m) (dkey d :: l_taint m))
   end.
 
 Fixpoint lrun (sg : bool) (m : lstate) (tr : list levent) : option lstate :=
@@ -117,7 +124,8 @@ Definition consistent (m : lstate) (k : N) : Prop :=
    VG t: the operation's first manifest exchange was answered (push: PUT 201, then it calls
    updateReferrersIndex; delete: the fetch succeeded, then it calls updateReferrersIndex);
    VM t: the delete's manifest DELETE was answered 202. *)
-Inductive lvis := LV (v : vis) | VM (t : tid) | VN (t : tid).   (* VN: the delete's manifest DELETE failed *)
+Inductive lvis := LV (v : vis) | VM (t : tid) | VN (t : tid)   (* VN: the delete's manifest DELETE failed *)
+                | VQ (t : tid).   (* the push's manifest PUT took effect and was answered with an error *)
 
 Fixpoint lsettle_pass (sg : bool) (n : nat) (m : lstate) : lstate * bool :=
   match n with
@@ -160,6 +168,10 @@ Definition lvis_step (sg : bool) (changes : list change) (m : lstate) (v : lvis)
     | LV VX => lstep sg m (LIdx EExtDrop)
     | VM t => lstep sg m (LDel t)
     | VN t => lstep sg m (LEnd t)
+    | VQ t => match nth t changes (Add empty_desc) with
+              | Add d => lstep sg m (LPutLost d)
+              | Remove _ => None
+              end
     end in
   match r with Some m1 => Some (lsettle sg n (3 * n + 3) m1) | None => None end.
 
